@@ -36,6 +36,13 @@ def run(ctx):
                 {"c": 0, "op": "send", "reqs": [R("AUTH", tok("key", pw))]},
                 {"c": 0, "op": "send", "reqs": [R("GET", tok("key", "k1")), R("SET", tok("key", "k:ud=a"), tok("str", "v1"))]},
                 {"c": 1, "op": "send", "reqs": [R("GET", tok("key", "k2"))]}]})
+        # database ids beyond 32 bits are ids of their own, not their low bits (every big id is "-1" to the specification)
+        for big in ("2^32", "2^32+2", "2^40+1", "max64", "2^31"):
+            scenarios.append({"requirepass": "", "handler": "rec", "tracer": False, "nconns": 2, "steps": [
+                {"c": 0, "op": "send", "reqs": [R("SELECT", tok("int", n=2)), R("SELECT", tok("int", big=big)), R("GET", tok("key", "k1"))]},
+                {"c": 1, "op": "send", "reqs": [R("GET", tok("key", "k1")), R("SELECT", tok("int", n=1))]},
+                {"c": 0, "op": "send", "reqs": [R("SET", tok("key", "k2"), tok("str", "v1")), R("SELECT", tok("int", n=2)), R("GET", tok("key", "k1"))]},
+                {"c": 1, "op": "send", "reqs": [R("GET", tok("key", "k2"))]}]})
         for how in ("fullclose", "halfclose"):
             for closefail in (False, True):
                 scenarios.append({"requirepass": "", "handler": "rec", "tracer": False, "nconns": 3, "closefail": closefail, "steps": [
